@@ -33,8 +33,9 @@ class DecoratorHelper:
 		join_args = decorator[args_begin + 1:len(decorator) - 1]
 		args: dict[str, str] = {}
 		for index, arg in enumerate(BlockParser.break_separator(join_args, ',')):
-			if arg.count('=') > 0:
-				label, *remain = arg.split('=')
+			# XXX 文字列やブロック内の`=`はラベルの区切りではないため、ブロックを考慮して分解
+			label, *remain = BlockParser.break_separator(arg, '=')
+			if len(remain) > 0:
 				args[label] = '='.join(remain)
 			else:
 				args[str(index)] = arg
